@@ -10,7 +10,7 @@ The tool never commits anything to /repo.
 """
 import json, os, shutil, subprocess, sys, tempfile
 
-REPO = "/repo"
+REPO = os.environ.get("VERIF_REPO", "/repo")   # a scratch worktree of /repo when several batches run side by side
 ROOT = os.path.dirname(os.path.dirname(os.path.abspath(__file__)))
 ENV = dict(os.environ, GOFLAGS="-mod=mod", GOPROXY="off", GOSUMDB="off", GOTOOLCHAIN="local")
 
